@@ -395,6 +395,10 @@ func lexTaskCommands(l *Lexer) lexFn {
 		case r == '\n':
 			// If there's a newline, might be more commands on the next line
 			l.backup()
+			// The line may end in \r\n, a carriage return is never part of the command
+			for strings.HasSuffix(l.all(), "\r") {
+				l.pos--
+			}
 			l.emit(token.COMMAND)
 			l.skipWhitespace()
 		case strings.HasPrefix(l.rest(), token.LINTERP.String()):
@@ -409,6 +413,9 @@ func lexTaskCommands(l *Lexer) lexFn {
 			l.backup()
 			// The command may end in a space which we should clean up
 			if strings.HasSuffix(l.all(), " ") {
+				l.pos--
+			}
+			for strings.HasSuffix(l.all(), "\r") {
 				l.pos--
 			}
 			if len(l.all()) != 0 {
